@@ -2,7 +2,7 @@
 from .. import env
 from ..core import Result, pmap, Violation
 from .. import tunerx, scheds, monitors
-from ..backends import ScriptedBackend, ScriptSpec
+from ..backends import ScriptedBackend, ScriptSpec, make_scripted_local_backend
 from .c01 import table
 
 LEVEL = "model_checking"
@@ -24,8 +24,9 @@ def build_factory(cfg):
         R_job = R + 2 if cfg["kind"] == "pbt" else R
         extra = (lambda t, level, run: {"cost": 1.0 + 0.5 * level + 0.1 * t}) if cfg["kind"] == "hb-cost" else None
         spec = ScriptSpec(table(8, R_job, sign), R_job, max_resource_attr=info["mra"], checkpointing=True, extra=extra)
-        backend = ScriptedBackend(chooser, spec, cfg["W"], profile=cfg["profile"], log=log, late_results=False,
-                                  delete_checkpoints=cfg["delete"])
+        make = make_scripted_local_backend if cfg.get("files") else ScriptedBackend
+        backend = make(chooser, spec, cfg["W"], profile=cfg["profile"], log=log, late_results=False,
+                       delete_checkpoints=cfg["delete"])
         rec = tunerx.make_recorder_callback(log, loop_cap=cfg.get("loop_cap", 200))
         tuner = Tuner(trial_backend=backend, scheduler=sched, stop_criterion=StoppingCriterion(**cfg["stop"]),
                       n_workers=cfg["W"], sleep_time=0, callbacks=[rec], save_tuner=False, suffix_tuner_name=False,
@@ -36,7 +37,7 @@ def build_factory(cfg):
 
 def ctx_of(cfg):
     return (f"{cfg['kind']}{'+spec' if cfg.get('speculative') else ''}/W{cfg['W']}/{'del' if cfg['delete'] else 'keep'}"
-            + ("" if cfg.get("mra", True) else "/nomra"))
+            + ("" if cfg.get("mra", True) else "/nomra") + ("/files" if cfg.get("files") else ""))
 
 
 def label(cfg):
@@ -77,6 +78,11 @@ def configs(tier, seed):
                                delete=delete, k=1 if tier == "quick" else 2, stop={"max_num_trials_started": 5 if base != "pbt" else 6},
                                wait=(pi % 2 == 0), pop=2 if W == 2 else 3, max_exec=250 if tier == "quick" else 5000)
                     out.append(cfg)
+    # the same through LocalBackend's real shutil checkpoint copy / delete and marker files
+    n = len(out)
+    for i in range(0, n, 5 if tier == "quick" else 3):
+        if out[i]["delete"]:
+            out.append(dict(out[i], files=True, max_exec=100 if tier == "quick" else 1500))
     return out
 
 
